@@ -268,6 +268,69 @@ def verifyEth (cr : Crypto) (cfg : ChainCfg) (height : Nat) (tx : Tx) : Verdict 
 def verifyTx (cr : Crypto) (cfg : ChainCfg) (height : Nat) (tx : Tx) : Verdict :=
   if tx.type = typeETHTX then verifyEth cr cfg height tx else verifyNative cr cfg height tx
 
+/-! ### `eth_tx.Sender`: the per-object sender cache
+
+`Sender(signer, tx)` returns the cached address when the cached signer `Equal`s the current one
+(for EIP-155 signers: same chain id), otherwise derives it, and stores (signer, address) only on
+success. -/
+
+structure SigCache where
+  chainId : Nat
+  sender : Bytes
+deriving Repr, DecidableEq
+
+def senderCached (cr : Crypto) (cache : Option SigCache) (chainId : Nat) (e : EthTx) :
+    Option Bytes × Option SigCache :=
+  let derive : Option Bytes × Option SigCache :=
+    match ethSender cr chainId e with
+    | none => (none, cache)
+    | some a => (some a, some ⟨chainId, a⟩)
+  match cache with
+  | some sc => if sc.chainId = chainId then (some sc.sender, cache) else derive
+  | none => derive
+
+/-- a sequence of `Sender` calls on one transaction object with signers of the given chain ids -/
+def senderRun (cr : Crypto) (e : EthTx) : Option SigCache → List Nat → List (Option Bytes)
+  | _, [] => []
+  | cache, c :: cs =>
+    let r := senderCached cr cache c e
+    r.1 :: senderRun cr e r.2 cs
+
+/-! ### the signing path (what an honest client / the node's own `SignTx` produces)
+
+`crypto.Sign` / `secp256k1.Sign` are the curve operation (parameter: the 65 bytes r‖s‖recid the
+library returns); the Go code around them is modelled: `FrontierSigner.SignatureValues`
+(v = sig[64] + 27 in **byte** arithmetic), `EIP155Signer.SignatureValues` (v = sig[64] + 35, byte
+arithmetic, plus 2·chainId — but only `if s.chainId.Sign() != 0`: for chain id 0 the Frontier
+value 27/28 is kept), `Transaction.WithSignature`, and the native wrapper `secp256k1.Sign`
+(`sig[64] += 27`). -/
+
+/-- `FrontierSigner.SignatureValues` (= Homestead): `none` is the panic on a wrong size. -/
+def frontierSigValues (sig : Bytes) : Option (Nat × Nat × Nat) :=
+  if sig.length ≠ 65 then none
+  else some (sigR sig, sigS sig, ((sig.drop 64).headD 0 + 27).toNat)
+
+/-- `EIP155Signer{chainId}.SignatureValues`. -/
+def eip155SigValues (chainId : Nat) (sig : Bytes) : Option (Nat × Nat × Nat) :=
+  match frontierSigValues sig with
+  | none => none
+  | some (r, s, v) =>
+    if chainId ≠ 0 then some (r, s, ((sig.drop 64).headD 0 + 35).toNat + 2 * chainId)
+    else some (r, s, v)
+
+/-- `Transaction.WithSignature` -/
+def withSignature (e : EthTx) (rsv : Nat × Nat × Nat) : EthTx :=
+  { e with r := rsv.1, s := rsv.2.1, v := rsv.2.2 }
+
+/-- `eth_tx.SignTx(tx, NewEIP155Signer(chainId), key)` given the library's signature `sig`
+    of `EIP155Signer.Hash(tx)`. -/
+def signTx155 (chainId : Nat) (e : EthTx) (sig : Bytes) : Option EthTx :=
+  (eip155SigValues chainId sig).map (withSignature e)
+
+/-- the native wrapper `secp256k1.Sign`: the library's r‖s‖recid with `sig[64] += 27` -/
+def nativeSignBytes (raw : Bytes) : Bytes :=
+  raw.take 64 ++ [(raw.drop 64).headD 0 + 27]
+
 /-! ### admission of a batch
 
 `WorkerConn.handleMessage(TransactionGotMsg)` (peer batches / sync replies) walks the received
@@ -282,6 +345,15 @@ def admitBatch (cr : Crypto) (cfg : ChainCfg) (height : Nat) : List Bytes → Li
     if verifyTx cr cfg height tx = .ok ∧ tx.hash ∉ have_ then
       tx :: admitBatch cr cfg height (tx.hash :: have_) rest
     else admitBatch cr cfg height have_ rest
+
+/-- the same loop reporting, per position, whether the element was added (what the
+    correspondence stream `batch` compares with the pool after the real handler ran) -/
+def admitFlags (cr : Crypto) (cfg : ChainCfg) (height : Nat) : List Bytes → List Tx → List Bool
+  | _, [] => []
+  | have_, tx :: rest =>
+    if verifyTx cr cfg height tx = .ok ∧ tx.hash ∉ have_ then
+      true :: admitFlags cr cfg height (tx.hash :: have_) rest
+    else false :: admitFlags cr cfg height have_ rest
 
 /-! ### the oracle queries one evaluation makes (used by the driver to insist
 that every crypto answer it needed was supplied on the op line) -/
